@@ -41,12 +41,16 @@ type c16Case struct {
 	// first mirror setting and data for them arrives in a second request (template cache kept, as over a restart
 	// with a cache file) under the other setting: mirroring must not change what is decoded and published
 	Toggle string `json:"toggle,omitempty"`
+	// Carry: indexes of payloads (arbitrary octets, even length >= 4) whose last two octets are set at run time so
+	// that the 32-bit one's-complement sum over pseudo header, UDP header and payload has 0xffff in its low half:
+	// folding it needs two end-around carries (the classic slip of checksum code)
+	Carry []int `json:"carry,omitempty"`
 }
 
 const c16Rule = "case = protocol (ipfix | sflow), max-udp-size 64..65507 (biased to 1500; the other protocols' size setting drawn independently), 1..4 workers, IPv4 exporter address in 4-octet or 16-octet form, mirror target 127.x.y.z:port, " +
 	"1..8 datagrams with lengths biased to {0, 1, size-29, size-28, size-27, size-1, size} (valid protocol messages and arbitrary octets); the real worker queues them for mirroring and the real mirror function emits them; " +
 	"oracle on the IP packets captured on lo (filtered by the run's own target address and port) = exactly one packet per datagram, version/IHL 0x45, protocol 17, source = exporter, destination = target, " +
-	"IP total length = 28+n = captured length, UDP length = 8+n, destination port = configured, payload byte-identical; the driver survives; published payloads with mirroring on == with mirroring off, also when templates were learned under one mirror setting and the data arrives under the other (cache kept), and when a flood of > 1000 datagrams overflows the mirror queue (then only: nothing corrupted, nothing twice); " +
+	"IP total length = 28+n = captured length, UDP length = 8+n, destination port = configured, UDP checksum absent (0) or verifying (payloads incl. ones whose checksum needs two end-around carries), payload byte-identical; the driver survives; published payloads with mirroring on == with mirroring off, also when templates were learned under one mirror setting and the data arrives under the other (cache kept), and when a flood of > 1000 datagrams overflows the mirror queue (then only: nothing corrupted, nothing twice); " +
 	"non-trivial = a payload within 28 octets of the maximum, or a 4-octet source address, or an empty payload; distinct by hash"
 
 func htons(x uint16) uint16 { return x<<8 | x>>8 }
@@ -196,6 +200,9 @@ func genC16(t *rapid.T, envs map[string]*wire.GenEnv) c16Case {
 		if kind <= 7 && c.Proto == "ipfix" && len(b) >= 2 && b[0] == 0 && b[1] == 10 {
 			b[1] = 11 // arbitrary octets must not happen to be an IPFIX message that installs templates
 		}
+		if kind <= 7 && len(b) >= 4 && len(b)%2 == 0 && rapid.Bool().Draw(t, "carry") {
+			c.Carry = append(c.Carry, len(c.Payloads))
+		}
 		c.Payloads = append(c.Payloads, b)
 	}
 	return c
@@ -238,6 +245,17 @@ func runC16(c *c16Case) (v verdict, sig string, err error) {
 	defer cap.close()
 
 	payloads := append([]wire.Hex{}, c.Payloads...)
+	for _, idx := range c.Carry {
+		if idx < 0 || idx >= len(payloads) || len(payloads[idx]) < 4 || len(payloads[idx])%2 != 0 {
+			return v, "", fmt.Errorf("bad case: carry index")
+		}
+		p := append(wire.Hex{}, payloads[idx]...)
+		sport := map[string]int{"ipfix": 55117, "sflow": 55118}[c.Proto] // source port the mirror functions use
+		sum := udpSum(src4, c.Target, sport, c.Port, p[:len(p)-2])
+		binary.BigEndian.PutUint16(p[len(p)-2:], uint16(0xffff-(sum&0xffff)))
+		payloads[idx] = p
+		v.label(true, "checksum-double-carry-payload")
+	}
 	if c.Flood > 0 {
 		// Flood template-only messages fill the mirror queue (1000 slots) without publishing anything, so the
 		// outgoing message queue stays far from full; 60 self-contained data messages follow
@@ -368,6 +386,16 @@ func runC16(c *c16Case) (v verdict, sig string, err error) {
 		if ul := int(binary.BigEndian.Uint16(p[24:])); ul != 8+n {
 			return v, "udp-length", fmt.Errorf("packet %d: UDP length %d for a payload of %d octets", i, ul, n)
 		}
+		if cs := binary.BigEndian.Uint16(p[26:]); cs != 0 {
+			// a UDP checksum of 0 means "none" (IPv4); anything else must verify, or the receiving host discards the datagram
+			sum := udpSum(p[12:16], p[16:20], int(binary.BigEndian.Uint16(p[20:])), int(binary.BigEndian.Uint16(p[22:])), p[28:]) + uint32(cs)
+			for sum>>16 != 0 {
+				sum = sum&0xffff + sum>>16
+			}
+			if sum != 0xffff {
+				return v, "udp-checksum", fmt.Errorf("packet %d (payload %d octets): UDP checksum %#04x does not verify (the receiving host's UDP stack discards the datagram)", i, n, cs)
+			}
+		}
 		pay := string(p[28:])
 		if want[pay] == 0 {
 			return v, "payload", fmt.Errorf("packet %d: payload of %d octets is not one of the datagrams sent (or was emitted twice): %.80x", i, n, pay)
@@ -461,6 +489,27 @@ func c16Toggle(c *c16Case, d *drvClient, target string) (string, error) {
 		}
 	}
 	return "", nil
+}
+
+// udpSum: 32-bit sum of the 16-bit words of the UDP pseudo header, the UDP header with a zero checksum field and
+// the payload (odd trailing octet padded with zero), not folded.
+func udpSum(src, dst []byte, sport, dport int, payload []byte) uint32 {
+	ulen := 8 + len(payload)
+	var sum uint32
+	add := func(b []byte) {
+		for i := 0; i+1 < len(b); i += 2 {
+			sum += uint32(b[i])<<8 | uint32(b[i+1])
+		}
+		if len(b)%2 == 1 {
+			sum += uint32(b[len(b)-1]) << 8
+		}
+	}
+	add(src)
+	add(dst)
+	sum += 17 + uint32(ulen)
+	sum += uint32(sport) + uint32(dport) + uint32(ulen)
+	add(payload)
+	return sum
 }
 
 func lens(ps []wire.Hex) []int {
